@@ -327,3 +327,24 @@ V("C09", "or-returns-self", "F", "R2", INI, "        return self.union(value)\n"
 V("C09", "xor-as-or", "F", "R2", INI, "return bool(self.spdx_expressions) ^ bool(self.copyright_lines)", "return bool(self.spdx_expressions) or bool(self.copyright_lines)")
 V("C09", "skip-existing-after-write", "F", "R3", ANP, "    if skip_existing and contains_reuse_info(text):", "    if False and skip_existing and contains_reuse_info(text):")
 V("C09", "copy-unknown-field", "F", "R2", PRJ, "closest = closest.copy(copyright_lines=set())", "closest = closest.copy(copyright=set())")
+
+# ----------------------------------------------------------------- C15
+V("C15", "json-format-writes-cache", "F", "R1", LNT, "    return json.dumps(\n        report.to_dict_lint(),", "    Path('.reuse-lint-cache.json').write_text('x')\n    return json.dumps(\n        report.to_dict_lint(),")
+V("C15", "lint-touches-licenses-dir", "F", "R1", PRJ, "        license_files: dict[str, Path] = {}\n", "        license_files: dict[str, Path] = {}\n        (self.root / 'LICENSES').mkdir(exist_ok=True)\n")
+V("C15", "git-clean", "F", "R3", R + "vcs.py", '        command = [str(cls.EXE), "status"]', '        command = [str(cls.EXE), "clean", "-fd"]')
+V("C15", "extract-writes-log", "F", "R1", EXP, "    path = Path(path)\n    with path.open(\"rb\") as fp:", "    path = Path(path)\n    with open('/tmp/reuse.log', 'a') as log:\n        log.write(str(path))\n    with path.open(\"rb\") as fp:")
+V("C15", "annotate-backup-file", "F", "R1", ANP, "        with open(path, \"w\", encoding=\"utf-8\", newline=line_ending) as fp:", "        Path(str(path) + '.orig').write_text(text)\n        with open(path, \"w\", encoding=\"utf-8\", newline=line_ending) as fp:")
+V("C15", "spdx-second-output", "F", "R1", R + "cli/spdx.py", "    with contextlib.ExitStack() as stack:", "    open('bom.cache', 'w').close()\n    with contextlib.ExitStack() as stack:")
+V("C15", "extra-read-only-open", "S", "", RPT, "        reports = sorted(self.file_reports, key=lambda x: x.name)\n", "        reports = sorted(self.file_reports, key=lambda x: x.name)\n        with open(__file__, 'rb') as _self:\n            _self.read(1)\n")
+V("C15", "dynamic-mode-open", "F", "R1", RPT, "        reports = sorted(self.file_reports, key=lambda x: x.name)\n", "        reports = sorted(self.file_reports, key=lambda x: x.name)\n        mode = 'w' if creator_person else 'r'\n        open('x.tmp', mode).close()\n")
+
+# ----------------------------------------------------------------- C16
+V("C16", "container-catches-oserror-only", "F", "R3", RPT, "        except Exception as exc:\n            return _MultiprocessingResult(file_, None, exc)", "        except OSError as exc:\n            return _MultiprocessingResult(file_, None, exc)")
+V("C16", "toml-unicode-handler-dropped", "F", "R4", GLP, "        except UnicodeDecodeError as error:\n            raise GlobalLicensingParseError(\n                str(error), source=str(path)\n            ) from error\n\n    def find_annotations_item", "        except KeyError as error:\n            raise GlobalLicensingParseError(\n                str(error), source=str(path)\n            ) from error\n\n    def find_annotations_item")
+V("C16", "str-to-set-raises-valueerror", "F", "R1", GLP, "    if value is None:\n        return cast(set[str], set())\n    if isinstance(value, str):", "    if value is None:\n        return cast(set[str], set())\n    if value == \"\":\n        raise ValueError(\"empty\")\n    if isinstance(value, str):")
+V("C16", "annotations-check-removed", "F", "R2", GLP, "        if not isinstance(annotation_dicts, list) or not all(\n            isinstance(annotation, dict) for annotation in annotation_dicts\n        ):", "        if False:")
+V("C16", "raise-without-source", "F", "R4", GLP, "                _(\"{attr_name} must not be empty.\").format(\n                    attr_name=repr(attr_name),\n                ),\n                source=source,\n            )", "                _(\"{attr_name} must not be empty.\").format(\n                    attr_name=repr(attr_name),\n                ),\n            )")
+V("C16", "expression-error-not-contained", "F", "R3", EXP, "        except (ExpressionError, ParseError):\n            _LOGGER.error(\n                _(\n                    \"'{path}' holds", "        except (KeyError,):\n            _LOGGER.error(\n                _(\n                    \"'{path}' holds")
+V("C16", "conflict-error-unmapped", "F", "R1", R + "cli/common.py", "        except (GlobalLicensingConflictError, OSError) as error:", "        except OSError as error:")
+V("C16", "dep5-valueerror-unhandled", "F", "R1", GLP, "        except (DebianError, ValueError) as error:", "        except DebianError as error:")
+V("C16", "toml-syntax-unhandled", "F", "R1", GLP, "        except tomlkit.exceptions.TOMLKitError as error:", "        except tomlkit.exceptions.EmptyKeyError as error:")
